@@ -247,6 +247,11 @@ pub struct ParseLevelFilterError(());
 
 static MAX_LEVEL: AtomicUsize = AtomicUsize::new(LevelFilter::OFF_USIZE);
 
+#[cfg(tracing_verif)]
+pub(crate) fn verif_max_level_raw() -> usize {
+    MAX_LEVEL.load(Ordering::Relaxed)
+}
+
 // ===== impl Metadata =====
 
 impl<'a> Metadata<'a> {
